@@ -32,7 +32,8 @@ def count_ops(t):
 
 # accepted constant names that look like something else: a directive / mnemonic / register in another letter case, hex digits only
 HOSTILE = ['ERROR', 'Error', 'STRING', 'String', 'BYTES', 'Align', 'PACK', 'Db', 'LONGS', 'ADD', 'Li', 'NOP', 'Zero', 'RA', 'SP', 'X1', 'T0', 'a', 'x',
-           'fee', 'dec', 'cafe', 'ADC', 'e', 'b0', 'xa', 'HI', 'LO', 'J', 'Ret', 'errors', 'string_', 'Offset', 'POSITION']
+           'fee', 'dec', 'cafe', 'ADC', 'e', 'b0', 'xa', 'HI', 'LO', 'J', 'Ret', 'errors', 'string_', 'Offset', 'POSITION',
+           '__STACK_TOP', 'MASK__LOW', 'ANSWER__', '_x', '_', 'a_b__c', 'import_', 'lambda_x', 'class_']
 
 
 def value_case(asm, acc, seed, idx):
